@@ -45,6 +45,11 @@ TREES = {
     "same-basename-same-content": {"p1/__init__.py": PY.format("MIT"), "p2/__init__.py": PY.format("MIT"), "p2/sub/__init__.py": PY.format("MIT"),
                                    "e1/empty": "", "e2/empty": "", "LICENSES/MIT.txt": "MIT text",
                                    "REUSE.toml": 'version = 1\n[[annotations]]\npath = "**/empty"\nSPDX-FileCopyrightText = "E"\nSPDX-License-Identifier = "MIT"\n'},
+    "two-sources-per-file": {
+        "REUSE.toml": 'version = 1\n[[annotations]]\npath = "src/**"\nprecedence = "aggregate"\nSPDX-FileCopyrightText = "Agg Corp"\nSPDX-License-Identifier = "MIT"\n',
+        "src/both.c": "/* SPDX-FileCopyrightText: K\n * SPDX-License-Identifier: ISC OR 0BSD\n */\n", "src/only_c.c": "/* SPDX-FileCopyrightText: K */\n",
+        "src/img.png": b"\x89PNG", "src/img.png.license": "SPDX-FileCopyrightText: A\nSPDX-License-Identifier: CC0-1.0\n",
+        "LICENSES/MIT.txt": "m", "LICENSES/ISC.txt": "i", "LICENSES/0BSD.txt": "b", "LICENSES/CC0-1.0.txt": "c"},
     "ignored-and-nested": {
         "a.py": PY.format("Apache-2.0+"), "build/.gitkeep": "", ".git/config": "x", "sub/COPYING": "gpl", "sub/deep/f.sh": "#!/bin/sh\n# SPDX-FileCopyrightText: S\n# SPDX-License-Identifier: MIT AND (0BSD OR MIT)\n",
         "LICENSES/Apache-2.0.txt": "a", "LICENSES/MIT.txt": "m", "LICENSES/0BSD.txt": "b"},
